@@ -3,7 +3,7 @@
    [from_lines] / [convert] / [load] are the reader model of coq/theories/Qplib.v
    (rust/ommx/src/qplib/parser.rs, convert.rs); [denote] is the polynomial a function message
    represents (Msg.v). *)
-Require Import Ommx.Num Ommx.Poly Ommx.Msg Ommx.Qplib Ommx.QplibProofs Ommx.QplibSpec Ommx.RunC19.
+Require Import Ommx.Num Ommx.Poly Ommx.Msg Ommx.Qplib Ommx.QplibProofs Ommx.QplibSpec Ommx.RunC19 Ommx.QplibRoundTrip.
 From Coq Require Import String.
 
 (* the objective of a loaded file is 1/2 x'Q0 x + b0'x + q0, Q0 being the symmetric matrix whose
@@ -114,6 +114,28 @@ Theorem C19_error_count : forall pre1 l1 pre2 l2 pre3 l3 pre4 l4 rest w2 pt w3 s
          + List.length pre4 + 1) EInt.
 Proof. exact error_count. Qed.
 Print Assumptions C19_error_count.
+
+(* reading as a theorem (Tier B): for EVERY well-formed abstract QPLIB model (one-word name, indices
+   within the declared sizes, finite coefficients, single-field names, every key of a section
+   listed once) printed under EVERY layout (comment / blank lines before any line, indentation,
+   TAB or space separators, trailing text, any letter case of the type code, any of the six
+   number styles and +-inf), the reader parses the text to the file the model describes and
+   converts it to the problem [meaning M]: same sense, objective equal as a polynomial function,
+   the same variables (ids, kinds, thresholded bounds, names), the same constraint sides in the
+   same order with equal ids and equal functions; name and description as documented.  No
+   assumption about number printing / parsing remains. *)
+Theorem C19_load_render_all : forall M ly, wf_qp M = true -> layout_ok ly = true ->
+  from_lines (render ly M) = Ok (file_of M)
+  /\ exists ins, load (render ly M) = Loaded ins
+                 /\ ainst_equiv (meaning M) (abstract ins)
+                 /\ i_name ins = Some (m_name M)
+                 /\ i_descr ins = ptype_string (m_ok M) (m_vk M) (m_ck M).
+Proof. exact C19_load_render. Qed.
+Print Assumptions C19_load_render_all.
+
+Example C19_load_render_nonvacuous : wf_qp ex_model = true /\ layout_ok ex_layout = true.
+Proof. exact ex_wf. Qed.
+
 
 (* the comparator of the correspondence check is sound: when it finds no difference between the
    expected abstract instance [e] (meaning M, or the model reader's result) and the SDK's [g],
